@@ -91,7 +91,7 @@ def h_roundtrip(ctx: Any, code: str, n: int, script: str, stacks: Any, decimal: 
     k = 0
     guard = 0
     # one aspect varies per path (commentary / user fields / showdown behaviour / corruption)
-    aspect = ctx.choice('aspect', 4)
+    aspect = ctx.choice('aspect', 5)
     ci = ctx.choice('comment', len(COMMENTS)) if aspect == 0 else 0
     comment_at = ctx.choice('comment_at', 3) if aspect == 0 else 0
     acts = 0
@@ -156,6 +156,24 @@ def h_roundtrip(ctx: Any, code: str, n: int, script: str, stacks: Any, decimal: 
     ea, eb = essence(st), essence(end)
     ctx.check(ea == eb, 'replayed-actions-or-cards-differ', lambda: f'{[x for x in zip(ea, eb) if x[0] != x[1]][:2]}')
     ctx.cover('round-trip')
+    if aspect == 4:
+        # a history may omit checks that cost nothing: the replay completes them
+        cc_ops = [o for o in st.operations if type(o).__name__ == 'CheckingOrCalling']
+        idx = [i for i, a in enumerate(hh.actions) if a.split()[1:2] == ['cc']]
+        if len(cc_ops) == len(idx):
+            drop = {i for i, o in zip(idx, cc_ops) if o.amount == 0 and o.commentary is None}
+            if drop:
+                slim = [a for i, a in enumerate(hh.actions) if i not in drop]
+                hs = HandHistory.loads(HandHistory.from_game_state(game, st, actions=slim).dumps())
+                try:
+                    ends = list(hs)[-1]
+                except Exception as e:
+                    C.reraise_control(e)
+                    ctx.fail('history-without-free-checks-does-not-replay', f'{type(e).__name__}: {e}: {slim}')
+                ctx.check([_norm(x) for x in ends.stacks] == [_norm(x) for x in st.stacks] and essence(ends) == ea,
+                          'omitted-checks-completed-differently', lambda: f'{slim}: {ends.stacks} vs {st.stacks}')
+                ctx.cover('omitted-checks')
+        return
     if not corrupt or aspect != 3:
         return
     # an inapplicable action must be reported, not skipped
